@@ -433,12 +433,14 @@ func init() {
 func atomicLoad(fr *frame, a []value) value {
 	if s := fr.i.sched; s != nil {
 		s.point(fr)
+		s.atomSync(a[0].(*value))
 	}
 	return *a[0].(*value)
 }
 func atomicStore(fr *frame, a []value) value {
 	if s := fr.i.sched; s != nil {
 		s.point(fr)
+		s.atomSync(a[0].(*value))
 	}
 	*a[0].(*value) = a[1]
 	return nil
@@ -446,6 +448,7 @@ func atomicStore(fr *frame, a []value) value {
 func atomicAdd(fr *frame, a []value) value {
 	if s := fr.i.sched; s != nil {
 		s.point(fr)
+		s.atomSync(a[0].(*value))
 	}
 	p := a[0].(*value)
 	*p = fr.binop(addTok, nil, *p, a[1])
@@ -454,6 +457,7 @@ func atomicAdd(fr *frame, a []value) value {
 func atomicCAS(fr *frame, a []value) value {
 	if s := fr.i.sched; s != nil {
 		s.point(fr)
+		s.atomSync(a[0].(*value))
 	}
 	p := a[0].(*value)
 	if equals(nil, *p, a[1]) {
